@@ -326,10 +326,23 @@ func runC16(s *Sim) {
 			}})
 		}
 		if s.Idle(recvT) {
-			acts = append(acts, Action{Name: "receive-call", W: 3, Do: func() { gotCalls = append(gotCalls, s.Start(recvT, y.recvCallOp(false))) }})
+			acts = append(acts, Action{Name: "receive-call", W: 3, Do: func() {
+				op := y.recvCallOp(false)
+				if t.Bool("receive-with-ended-context", 1, 6) {
+					op.CtxKind = "expired" // an error or the next call; a call is never taken and dropped
+					s.Stat("env.receive-with-ended-context")
+				}
+				gotCalls = append(gotCalls, s.Start(recvT, op))
+			}})
 		}
 		if s.Idle(replyT) {
-			acts = append(acts, Action{Name: "receive-reply", W: 3, Do: func() { gotReplies = append(gotReplies, s.Start(replyT, y.recvCallOp(true))) }})
+			acts = append(acts, Action{Name: "receive-reply", W: 3, Do: func() {
+				op := y.recvCallOp(true)
+				if t.Bool("receive-with-ended-context", 1, 6) {
+					op.CtxKind = "expired"
+				}
+				gotReplies = append(gotReplies, s.Start(replyT, op))
+			}})
 		}
 		if l := link(); l != nil && len(inboundCalls)-countOK(gotCalls) < 900 {
 			acts = append(acts, Action{Name: "inbound-call", W: 3, Do: func() {
